@@ -608,6 +608,16 @@ class Program:
                 return f
         return None
 
+    def resolve_ptr(self, caller, name):
+        """Target of a call through a function pointer holding `name`: static functions of other units qualify."""
+        r = self.resolve(caller, name)
+        if r is not None:
+            return r
+        c = self.by_name.get(name, [])
+        if len(c) == 1:
+            return c[0]
+        return None
+
     def record(self, name, required=True):
         r = self.records.get(name)
         if r is None and required:
@@ -787,7 +797,7 @@ class PointsTo:
                     for t in targets:
                         if t in PSEUDO:
                             continue
-                        tf = p.resolve(f, t) if isinstance(t, str) else None
+                        tf = (p.resolve(f, t) if ev.callee else p.resolve_ptr(f, t)) if isinstance(t, str) else None
                         if not tf:
                             continue
                         for i, a in enumerate(ev.args):
@@ -901,7 +911,7 @@ class CallGraph:
             if v != "NULL":
                 self.edges[f.key].add(("pseudo", v))
             return
-        tf = self.p.resolve(f, v)
+        tf = self.p.resolve_ptr(f, v)
         if tf:
             self.edges[f.key].add(tf.key)
         else:
@@ -925,7 +935,7 @@ class CallGraph:
                                     if v != "NULL":
                                         out.append(("pseudo", v))
                                 else:
-                                    t2 = self.p.resolve(f, v)
+                                    t2 = self.p.resolve_ptr(f, v)
                                     out.append(t2 if t2 else ("ext", v))
             else:
                 out.append(("ext", ev.callee))
@@ -935,7 +945,7 @@ class CallGraph:
                     if v != "NULL":
                         out.append(("pseudo", v))
                 else:
-                    t2 = self.p.resolve(f, v)
+                    t2 = self.p.resolve_ptr(f, v)
                     out.append(t2 if t2 else ("ext", v))
         return out
 
